@@ -224,25 +224,24 @@ def rule_v2gates(ctx, R, F):
             arms['v1'] = [showv(c['a'][0]) for c in calls(x['e']) if c.get('name') == 'emit'] if x.get('e') else []
     R.eq('x86 light mode fragment choice', '%s:%d' % (f['file'], f['line']), {'v2': ['randomx::codeReadDatasetLightSshInitV2'], 'v1': ['randomx::codeReadDatasetLightSshInit']}, arms)
     f = F.func('randomx::JitCompilerX86::generateProgramEpilogue')
+    import decoder as _dec
+    frag = set()
     with astq.nocasts():
-        frag = []
-
-        def rec(s, conds):
-            if s is None:
-                return
-            if s['k'] == 'If':
-                c = showv(s['c'])
-                rec(s['t'], conds + [(c, True)])
-                rec(s.get('e'), conds + [(c, False)])
-            elif s['k'] == 'Compound':
-                for y in s['s']:
-                    rec(y, conds)
-            else:
-                for c in calls(s):
+        for p in _dec.paths(f['body'], record_conds=True):
+            cs = []
+            for e_ in p.events:
+                if isinstance(e_, tuple):
+                    if e_[0] == 'cond':
+                        cshow = showv(e_[1])
+                        if str(v2) in cshow and 'lags' in cshow:
+                            cs.append(('V2', e_[2]))
+                        elif str(hard) in cshow and 'lags' in cshow:
+                            cs.append(('HARD', e_[2]))
+                    continue
+                for c in calls(e_):
                     if c.get('name') == 'memcpy' and 'codeLoopStore' in show(c['a'][1]):
-                        frag.append((tuple(conds), showv(c['a'][1])))
-        rec(f['body'], [])
-    norm = sorted((tuple(('V2' if str(v2) in c else 'HARD' if str(hard) in c else c, t) for c, t in cs), fr) for cs, fr in frag)
+                        frag.add((tuple(dict.fromkeys(cs)), showv(c['a'][1])))
+    norm = sorted(frag)
     exp = sorted([((('V2', True), ('HARD', True)), 'randomx::codeLoopStoreHardAes'), ((('V2', True), ('HARD', False)), 'randomx::codeLoopStoreSoftAes'), ((('V2', False),), 'randomx::codeLoopStore')])
     R.eq('x86 store fragment choice', '%s:%d' % (f['file'], f['line']), [[list(map(list, a)), b] for a, b in exp], [[list(map(list, a)), b] for a, b in norm])
     # compiler flag copy: setFlags stores into the field the generators test
